@@ -355,12 +355,24 @@ func childRun(raw json.RawMessage) (interface{}, error) {
 					case kindAccess:
 						ri := rnd.Intn(len(accStressRoutes))
 						ci := rnd.Intn(len(accStressClients))
-						req := accStressClients[ci].build("acc.example", "/"+accStressRoutes[ri].name)
-						w := &nullWriter{h: http.Header{}}
-						px.ServeHTTP(w, req)
 						c := &accTally[g][ri*len(accStressClients)+ci]
 						c.Route, c.Client = ri, ci
 						c.N++
+						if rnd.Intn(2) == 0 {
+							// the twin route that is not a redirect, asked directly: the shared target itself
+							req := accStressClients[ci].build("acc.example", "/"+accStressRoutes[ri].name+"-p")
+							tg := route.GetTable().Lookup(req, "", pick, match, cache, globOff)
+							switch {
+							case tg == nil || tg.Service != accStressRoutes[ri].name+"-p":
+								c.Other++
+							case tg.AccessDeniedHTTP(req):
+								c.Denied++
+							}
+							return
+						}
+						req := accStressClients[ci].build("acc.example", "/"+accStressRoutes[ri].name)
+						w := &nullWriter{h: http.Header{}}
+						px.ServeHTTP(w, req)
 						switch {
 						case w.code == 403:
 							c.Denied++
